@@ -173,6 +173,17 @@ def run(fx, rep):
             okk = okk and got_el == [elems]
             detail = 'operator %s, operands %s' % (got_op, got_el)
         rep.check(okk, 'R3', '%s/operands-in-source-order' % name, b.loc(), detail, '%s builds its call node as %s, expected operator %s with operands %s' % (name, detail, opname or 'find_operator(op text)', elems))
+        # every value the method returns is that node, a child passed through, or the placeholder that follows a reported error
+        allowed = ('Parser::' + callee, 'Parser::report_error', 'Parser::visit', 'ParseTreeVisitorCompat::visit', 'ParseTreeVisitorCompat::visit_children', 'std::default::Default::default')
+        other = set()
+        for _, ts in pv.per_def(0):
+            for r in ts:
+                if r[0] == 'call' and not any((r[1] or '').endswith(a) for a in allowed):
+                    other.add(r[1])
+                elif r[0] not in ('call',):
+                    other.add(F.term_str(r)[:60])
+        rep.check(not other, 'R3', '%s/returns-only-that-node' % name, b.loc(), 'returns the operator node, a visited child or the error placeholder',
+                  '%s also returns a tree built by %s: the operator/operand structure of the source is not what is evaluated' % (name, sorted(map(str, other))))
     b = visitor(fx, 'visit_MemberCall')
     pv = F.Prov(b)
     cs = [(bi, t) for bi, t in b.calls() if (F.norm_callee(t) or '').endswith('Parser::receiver_call_or_macro')]
@@ -408,6 +419,37 @@ def run(fx, rep):
             if bi in even_r and bi not in odd_r:
                 rets |= {F.term_str(x) for x in ts}
         rep.check(rets == {'visit(arg1, member(arg2))'}, 'R5', '%s/even-count-returns-operand' % name, b.loc(), 'returns the operand itself', 'on an even count the visitor returns %s' % sorted(rets))
+    # ---------------- R7 who builds the node a visitor method returns
+    rep.rule('R7', 'each visitor method returns a node built by its one designated constructor, a visited child, or the error placeholder')
+    NEXT, GCM, RCM, LME, AGG = 'cel_parser::parser::ParserHelper::next_expr', 'cel_parser::parser::Parser::global_call_or_macro', 'cel_parser::parser::Parser::receiver_call_or_macro', 'cel_parser::parser::LogicManager::expr', 'IdedExpr{..}'
+    SOURCES = {'visit_BoolFalse': {NEXT}, 'visit_BoolTrue': {NEXT}, 'visit_Bytes': {NEXT}, 'visit_ConstantLiteral': set(), 'visit_CreateList': {AGG}, 'visit_CreateMessage': {AGG}, 'visit_CreateStruct': {AGG},
+               'visit_Double': {NEXT}, 'visit_GlobalCall': {GCM}, 'visit_Ident': {NEXT}, 'visit_Index': {GCM}, 'visit_Int': {NEXT}, 'visit_LogicalNot': {GCM}, 'visit_MemberCall': {RCM}, 'visit_MemberExpr': set(),
+               'visit_Negate': {GCM}, 'visit_Nested': set(), 'visit_Null': {NEXT}, 'visit_PrimaryExpr': set(), 'visit_Select': {NEXT}, 'visit_String': {NEXT}, 'visit_Uint': {NEXT}, 'visit_calc': {GCM},
+               'visit_conditionalAnd': {LME}, 'visit_conditionalOr': {LME}, 'visit_expr': {GCM}, 'visit_relation': {GCM}, 'visit_start': set()}
+    PASS = ('antlr4rust::tree::ParseTreeVisitorCompat::visit', 'antlr4rust::tree::ParseTreeVisitorCompat::visit_children', 'cel_parser::parser::Parser::report_error', 'std::default::Default::default')
+    present = sorted({re.search(r'::(visit_\w+)$', b.path).group(1) for b in fx.bodies.values() if b.crate == 'cel_parser' and 'parser.rs' in b.loc() and 'CELVisitorCompat' in b.path and re.search(r'::(visit_\w+)$', b.path)})
+    for name in sorted(set(present) | set(SOURCES)):
+        if name not in SOURCES:
+            rep.violation('R7', '%s/not-in-table' % name, visitor(fx, name).loc(), 'visitor method %s is new: its node construction has not been reviewed against the grammar' % name)
+            continue
+        if name not in present:
+            rep.violation('R7', '%s/missing' % name, 'antlr/src/parser.rs', 'visitor method %s no longer exists: the generated default (visit_children) applies to that alternative' % name)
+            continue
+        b = visitor(fx, name)
+        pv = F.Prov(b)
+        got = set()
+        for _, ts in pv.per_def(0):
+            for r in ts:
+                if r[0] == 'call':
+                    if r[1] not in PASS:
+                        got.add(r[1])
+                elif r[0] == 'agg' and (r[1] or '').endswith('IdedExpr'):
+                    got.add(AGG)
+                else:
+                    got.add(F.term_str(r)[:60])
+        rep.check(got == SOURCES[name], 'R7', '%s/result-source' % name, b.loc(), 'returns %s' % (sorted(got) or 'only visited children / error placeholders'),
+                  '%s returns nodes built by %s, expected %s: the tree no longer mirrors the grammar alternative' % (name, sorted(map(str, got)), sorted(SOURCES[name])))
+    rep.floor('R7', 28)
     rep.floor('R5', 30)
     # ---------------- R6
     from . import c10
